@@ -921,3 +921,42 @@ func c03TermJob(r *rng, id int, opts int) c03Job {
 	}
 	return j
 }
+
+// c03TermSeedJobs: hand-written jobs of the terminating class that every run starts with (independent of the PRNG):
+// each entry point, then every kind of host call that reaches a native calling back into the VM
+func c03TermSeedJobs() []c03Job {
+	imports := "import \"golang.org/x/exp/slices\"\nimport \"time\"\nimport \"fmt\"\n"
+	vars := "var cmpObj = &Cmp{k: 1}\nvar boundLess = cmpObj.less\nvar lambdaLess = func(a int, b int) bool { return b < a }\n"
+	sortNative := func(kind, native, cmp string, n int) c03Call {
+		return c03Call{Kind: kind, Name: "golang.org/x/exp/slices." + native, Fn: c03Arg{K: "global", S: "golang.org/x/exp/slices." + native},
+			Args: []c03Arg{{K: "intslice", I: n}, {K: "global", S: cmp}}}
+	}
+	calls := func(pfx string) []c03Call {
+		return []c03Call{
+			{Kind: "call", Name: pfx + "sort0", XRets: 1}, {Kind: "call", Name: pfx + "sort1", XRets: 1}, {Kind: "call", Name: pfx + "sort2", XRets: 1},
+			{Kind: "call", Name: pfx + "sortMany", XRets: 1}, {Kind: "call", Name: pfx + "sortStable", XRets: 1}, {Kind: "call", Name: pfx + "sortPanics", XRets: 1},
+			{Kind: "call", Name: pfx + "sortNested2", XRets: 1}, {Kind: "call", Name: pfx + "sortSleep", XRets: 1}, {Kind: "call", Name: pfx + "sortMethod", XRets: 1},
+			{Kind: "call", Name: pfx + "sortLambda", XRets: 1}, {Kind: "call", Name: pfx + "naps", XRets: 1},
+			{Kind: "func", Fn: c03Arg{K: "global", S: pfx + "sortMany"}, XRets: 1},
+			{Kind: "func", Fn: c03Arg{K: "global", S: pfx + "boundLess"}, XRets: 1, Args: []c03Arg{{K: "int", I: 1}, {K: "int", I: 2}}},
+			{Kind: "func", Fn: c03Arg{K: "global", S: pfx + "lambdaLess"}, XRets: 1, Args: []c03Arg{{K: "int", I: 1}, {K: "int", I: 2}}},
+			{Kind: "func", Fn: c03Arg{K: "global", S: pfx + "lessNested"}, XRets: 1, Args: []c03Arg{{K: "int", I: 1}, {K: "int", I: 2}}},
+			sortNative("func", "SortFunc", pfx+"less", 17), sortNative("call", "SortStableFunc", pfx+"greater", 2), sortNative("func", "SortFunc", pfx+"less", 1),
+			sortNative("func", "SortStableFunc", pfx+"lessPanic", 3), sortNative("call", "SortFunc", pfx+"lessNested", 3), sortNative("func", "SortFunc", pfx+"boundLess", 4),
+			{Kind: "func", Fn: c03Arg{K: "nativecb", S: pfx + "less"}, XRets: 1}, {Kind: "func", Fn: c03Arg{K: "nativecb", S: pfx + "lessNested"}, XRets: 1},
+			{Kind: "call", Name: "time.Sleep", Args: []c03Arg{{K: "float", F: 1}}},
+		}
+	}
+	pkg := "package main\n" + imports + c03TermLib + vars + "func init() {\nsortNested()\nnap()\n}\nfunc main() {\nsortMany()\nsortStable()\nnaps()\n}\n"
+	return []c03Job{
+		{Entry: "eval", Class: "term-eval", Fname: "eval", Files: map[string]string{}, MustTerminate: true,
+			Src: imports + c03TermLib + "cmpObj := &Cmp{k: 1}\nboundLess := cmpObj.less\nlambdaLess := func(a int, b int) bool { return b < a }\nsortMany()\nsortNested2()\nnaps()\nsort2(), boundLess(2, 1)\n", Calls: calls("main.")},
+		{Entry: "eval", Class: "term-eval-package", Fname: "eval", Files: map[string]string{}, MustTerminate: true, Opts: 7, Src: pkg, Calls: append(calls("main."), c03Call{Kind: "call", Name: "main.main"})},
+		{Entry: "load", Class: "term-load", Arg: "main", MustTerminate: true, Files: map[string]string{"main/main.go": pkg + "var topSorted = sortMany()\nvar topNap = nap()\n"},
+			Calls: append(calls("main."), c03Call{Kind: "call", Name: "main.main"})},
+		{Entry: "load", Class: "term-load-file", Arg: "main/main.go", MustTerminate: true, Opts: 3, Files: map[string]string{
+			"main/main.go": "package main\nimport \"tl\"\nfunc main() { tl.Run() }\n",
+			"tl/tl.go":     "package tl\n" + imports + c03TermLib + vars + "func Run() {\nsortMany()\nsortNested()\nnap()\n}\nfunc init() { Run() }\n"},
+			Calls: append(calls("tl."), c03Call{Kind: "call", Name: "main.main"})},
+	}
+}
